@@ -1,208 +1,41 @@
 //! C11 - lexical variations allowed by IEEE 488.2 do not change the meaning.
 
 use serde_json::{json, Value};
-use vcore::ast::{show_log, Message, Unit, Ws};
-use vcore::gen::{self, Env, FailSpec, GenCfg, Index, Item, WS_BYTES};
+use vcore::ast::Message;
+use vcore::gen::{Env, Index, WS_BYTES};
 use vcore::runner::{esc, hash_of, replay_tape, Harness, Stats};
-use vcore::spec::{Model, Target};
+use vcore::spec::Model;
 use vcore::tape::Tape;
-use vrun::props::{gen_faulty_unit, Fault};
+use vrun::props::{c11_compare, c11_gen_base, c11_random_prop, Exec};
+use vrun::{ProcOut, RunOut};
 
 type Fx = fixture::fx::I<8>;
 
-fn observe(env: &Env, stream: &[u8]) -> (Vec<Item>, String) {
-    let out = vrun::run_rec::<Fx>(Some(env), &[], stream);
-    (gen::items(&out.log), show_log(&out.log))
-}
-
-fn observe_process(env: &Env, stream: &[u8]) -> (Vec<vcore::ast::Ev>, Vec<u8>) {
-    // a read schedule derived from the bytes themselves (single bytes, pairs, or everything at once):
-    // variations that only show at a read boundary are then visible too
-    let reads: Vec<usize> = match hash_of(stream) % 4 {
-        0 => vec![],
-        1 => vec![1; stream.len()],
-        2 => vec![2; stream.len()],
-        _ => (0..stream.len()).map(|i| 1 + (hash_of(&(stream, i)) % 5) as usize).collect(),
-    };
-    let po = vrun::process::<Fx, 1024>(Some(env), &[], stream, &reads, None);
-    vrun::observation(&po.log, &[])
-}
-
-/// Base message: canonical spelling (upper case as chosen by the generator, single blanks, LF),
-/// valid units plus execution-type faults.
-fn gen_base(t: &mut Tape, model: &Model, ix: &Index, env: &mut Env) -> Message {
-    let mut cfg = GenCfg::default();
-    cfg.lexical = false;
-    cfg.max_units = 4;
-    cfg.lit.max_payload = 4;
-    cfg.p_empty_message = 0;
-    let failing: Vec<usize> = if t.chance(1, 3) {
-        let id = t.below(model.spec.decls.len());
-        env.fail[id] = Some(FailSpec::Custom(-(t.below(300) as i16) - 1, t.below(8)));
-        vec![id]
+fn exec() -> Exec<'static> {
+    fn rr(env: &Env, pauses: &[u8], input: &[u8]) -> RunOut {
+        vrun::run_rec::<Fx>(Some(env), pauses, input)
     }
-    else {
-        vec![]
-    };
-    let n = t.range(1, 4);
-    let mut units: Vec<Unit> = Vec::new();
-    let mut ctx: Vec<String> = Vec::new();
-    for _ in 0..n {
-        let u = if t.chance(1, 5) {
-            let fault = [Fault::Arity, Fault::Kind, Fault::Range, Fault::NotBool, Fault::UndefSoft, Fault::UndefHard][t.below(6)];
-            match gen_faulty_unit(t, model, ix, &ctx, &cfg, fault, &failing) {
-                Some((u, _)) => u,
-                None => gen::gen_unit(t, ix, &ctx, &cfg),
-            }
-        }
-        else {
-            gen::gen_unit(t, ix, &ctx, &cfg)
-        };
-        if let Some(c) = model.resolve(&ctx, &u.header).new_ctx {
-            ctx = c;
-        }
-        units.push(u);
+    fn pp(env: &Env, _n: usize, pauses: &[u8], stream: &[u8], reads: &[usize]) -> ProcOut {
+        vrun::process::<Fx, 1024>(Some(env), pauses, stream, reads, None)
     }
-    let mut m = Message::new(units);
-    m.trailing_semicolon = t.chance(1, 8);
-    m
-}
-
-/// Other spellings (short/long form) of mnemonic `i` of `u` that select the same node.
-fn alternatives(model: &Model, ctx: &[String], u: &Unit, i: usize) -> Vec<String> {
-    let base = model.resolve(ctx, &u.header);
-    let Some(target) = base.target else { return vec![] };
-    let mut full: Vec<String> = if u.header.absolute || u.header.is_common() { vec![] } else { ctx.to_vec() };
-    let offset = full.len();
-    full.extend(u.header.mnems.iter().map(|m| m.to_ascii_uppercase()));
-    let mut out = Vec::new();
-    for ((path, query), tg) in &model.dict {
-        if *tg == target && *query == u.header.query && path.len() == full.len() {
-            let same_elsewhere = (0..path.len()).all(|k| k == offset + i || path[k] == full[k]);
-            if same_elsewhere && path[offset + i] != full[offset + i] {
-                out.push(path[offset + i].clone());
-            }
-        }
+    Exec {
+        run_rec: &rr,
+        process: &pp,
+        sizes: &[1024],
+        qcap: 8,
     }
-    out
-}
-
-#[derive(Default)]
-struct Kinds {
-    case: bool,
-    form: bool,
-    ws: bool,
-    crlf: bool,
-    odd_ws: bool,
-}
-
-fn gen_variant(t: &mut Tape, model: &Model, base: &Message, kinds: &mut Kinds) -> Message {
-    let mut v = base.clone();
-    let mut ctx: Vec<String> = Vec::new();
-    let mut vctx: Vec<String> = Vec::new();
-    for (ui, u) in base.units.iter().enumerate() {
-        let target = model.resolve(&ctx, &u.header).target;
-        let mut nu = u.clone();
-        if matches!(target, Some(Target::User(_)) | Some(Target::StdVersion) | Some(Target::ErrNext) | Some(Target::ErrCount)) {
-            for i in 0..u.header.mnems.len() {
-                if t.chance(1, 2) {
-                    let alts = alternatives(model, &ctx, u, i);
-                    if !alts.is_empty() {
-                        let mut cand = nu.clone();
-                        cand.header.mnems[i] = alts[t.below(alts.len())].clone();
-                        if model.resolve(&vctx, &cand.header).target == target {
-                            nu = cand;
-                            kinds.form = true;
-                        }
-                    }
-                }
-            }
-        }
-        for m in nu.header.mnems.iter_mut() {
-            let spelled = gen::spell(t, &m.to_ascii_uppercase(), true);
-            if spelled != *m {
-                kinds.case = true;
-            }
-            *m = spelled;
-        }
-        let ws = gen::gen_ws_slots(t, true);
-        if ws != Ws::default() {
-            kinds.ws = true;
-            let all: Vec<u8> = [&ws.before[..], &ws.gap, &ws.before_comma, &ws.after_comma, &ws.end].concat();
-            if all.iter().any(|b| !matches!(b, b' ' | b'\t' | b'\r')) {
-                kinds.odd_ws = true;
-            }
-        }
-        nu.ws = ws;
-        if let Some(c) = model.resolve(&ctx, &u.header).new_ctx {
-            ctx = c;
-        }
-        if let Some(c) = model.resolve(&vctx, &nu.header).new_ctx {
-            vctx = c;
-        }
-        v.units[ui] = nu;
-    }
-    if v.trailing_semicolon || v.units.is_empty() {
-        v.tail_ws = gen::gen_ws(t, true, 0);
-    }
-    v.crlf = t.chance(1, 2);
-    kinds.crlf = v.crlf;
-    v
 }
 
 fn compare(env: &Env, base: &Message, variant: &Message) -> Result<(), String> {
-    let b = base.rendered();
-    let v = variant.rendered();
-    let (ob, lb) = observe(env, &b);
-    let (ov, lv) = observe(env, &v);
-    if ob != ov {
-        return Err(format!(
-            "base '{}' and its lexical variant '{}' behave differently: [{}] vs [{}]",
-            esc(&b),
-            esc(&v),
-            lb,
-            lv
-        ));
-    }
-    if b.len() <= 1024 && v.len() <= 1024 {
-        let pb = observe_process(env, &b);
-        let pv = observe_process(env, &v);
-        if pb != pv {
-            return Err(format!(
-                "through process, base '{}' and its lexical variant '{}' behave differently",
-                esc(&b),
-                esc(&v)
-            ));
-        }
-    }
-    Ok(())
+    c11_compare(&exec(), env, base, variant)
 }
 
 fn random_prop(model: &Model, ix: &Index, tape: &[u32], st: &mut Stats) -> Result<(), String> {
-    let mut t = Tape::new(tape);
-    let mut env = Env::new(model, 8);
-    let base = gen_base(&mut t, model, ix, &mut env);
-    for _ in 0..3 {
-        let mut kinds = Kinds::default();
-        let variant = gen_variant(&mut t, model, &base, &mut kinds);
-        compare(&env, &base, &variant)?;
-        st.evals_add(1);
-        let n = [kinds.case, kinds.form, kinds.ws, kinds.crlf].iter().filter(|b| **b).count();
-        if kinds.form {
-            st.class("short/long form exchanged");
-        }
-        if kinds.odd_ws {
-            st.class("white space other than blank/tab/CR");
-        }
-        if kinds.crlf {
-            st.class("CR LF terminator");
-        }
-        if n >= 2 || kinds.odd_ws {
-            st.nontrivial(&variant.rendered());
-        }
-        st.sample(|| json!({ "base": esc(&base.rendered()), "variant": esc(&variant.rendered()) }));
-    }
-    Ok(())
+    c11_random_prop(model, ix, &exec(), tape, st)
+}
+
+fn gen_base(t: &mut Tape, model: &Model, ix: &Index, env: &mut Env) -> Message {
+    c11_gen_base(t, model, ix, env)
 }
 
 /// Base messages for the exhaustive white-space part: deterministic tapes, at least two units, one
